@@ -4,6 +4,7 @@ package main
 
 import (
 	"fmt"
+	"os"
 	"go/constant"
 	"go/types"
 	"math/big"
@@ -20,7 +21,46 @@ type SpecEnv struct {
 	inOld    bool
 	fr       *Frame
 	bound    map[string]T
+	nested   bool
+	pol      int // +1: formula is a proof goal, -1: formula is assumed, 0: unknown polarity
+	pendingFacts []string
+	facts    []string // well-formedness facts about values loaded from memory while evaluating
+	noFacts  bool
 }
+
+// note records the well-typedness of a value just loaded from memory (true in every reachable state).
+func (se *SpecEnv) note(term string, ty types.Type) {
+	if se.noFacts || ty == nil || noFactsEnv {
+		return
+	}
+	switch se.c.reg.SortOf(ty) {
+	case "Addr", "Slice", "Int", "Iface", "Func":
+		f := se.c.wf(term, ty, se.heapTop())
+		if f != "true" {
+			se.facts = append(se.facts, f)
+		}
+	}
+}
+
+func (se *SpecEnv) takeFacts(from int) string {
+	if from >= len(se.facts) {
+		return "true"
+	}
+	fs := append([]string(nil), se.facts[from:]...)
+	se.facts = se.facts[:from]
+	// dedupe
+	seen := map[string]bool{}
+	var out []string
+	for _, f := range fs {
+		if !seen[f] {
+			seen[f] = true
+			out = append(out, f)
+		}
+	}
+	return and(out...)
+}
+
+var noFactsEnv = os.Getenv("VERIF_NOFACTS") != ""
 
 type specErr struct{ msg string }
 
@@ -50,16 +90,32 @@ func (se *SpecEnv) heapTop() string {
 }
 
 func (se *SpecEnv) evalBool(e Expr) string {
+	top := len(se.bound) == 0 && !se.nested
+	mark := len(se.facts)
+	if top {
+		se.nested = true
+		defer func() { se.nested = false }()
+	}
 	t := se.eval(e)
 	if t.So != "Bool" {
 		se.fail("expected boolean, got %s in %s", t.So, e)
+	}
+	if top {
+		f := se.takeFacts(mark)
+		if f != "true" {
+			if se.st != nil {
+				se.st.assume(f)
+			} else {
+				se.pendingFacts = append(se.pendingFacts, f)
+			}
+		}
 	}
 	return t.S
 }
 
 func (c *Ctx) evalBoolIn(st *State, fr *Frame, e Expr, old *MemSnap) string {
 	se := &SpecEnv{c: c, st: st, vars: fr.env, pkg: c.pkgOfFrame(fr), old: old, fr: fr}
-	return se.evalBool(e)
+	return se.prove(e)
 }
 
 func (se *SpecEnv) pkgTypes() *types.Package {
@@ -170,6 +226,7 @@ func (se *SpecEnv) lookupIdent(name string) (T, bool) {
 		if vb, ok := se.st.vars[se.c.frameVarKey(se.fr, name)]; ok {
 			if vb.isAddr {
 				term := se.c.loadWith(se.memOf, vb.val.S, vb.ty)
+				se.note(term, vb.ty)
 				return T{S: term, So: se.c.reg.SortOf(vb.ty), Ty: vb.ty}, true
 			}
 			return vb.val, true
@@ -257,7 +314,10 @@ func (se *SpecEnv) eval(e Expr) T {
 	case *EUnary:
 		switch x.Op {
 		case "!":
-			return T{S: not(se.evalBool(x.X)), So: "Bool"}
+			se.pol = -se.pol
+			r := T{S: not(se.evalBool(x.X)), So: "Bool"}
+			se.pol = -se.pol
+			return r
 		case "-":
 			v := se.eval(x.X)
 			return T{S: "(- " + v.S + ")", So: "Int", Ty: v.Ty}
@@ -270,12 +330,17 @@ func (se *SpecEnv) eval(e Expr) T {
 			if !ok {
 				se.fail("deref of non-pointer %s", x.X)
 			}
-			return T{S: se.c.loadWith(se.memOf, p.S, pt.Elem()), So: se.c.reg.SortOf(pt.Elem()), Ty: pt.Elem()}
+			r := T{S: se.c.loadWith(se.memOf, p.S, pt.Elem()), So: se.c.reg.SortOf(pt.Elem()), Ty: pt.Elem()}
+			se.note(r.S, pt.Elem())
+			return r
 		}
 	case *EBinary:
 		return se.evalBinary(x)
 	case *ECond:
+		sp := se.pol
+		se.pol = 0
 		cnd := se.evalBool(x.C)
+		se.pol = sp
 		a := se.eval(x.A)
 		b := se.eval(x.B)
 		a, b = se.unifyNil(a, b)
@@ -325,12 +390,24 @@ func (se *SpecEnv) evalBinary(x *EBinary) T {
 	case "||":
 		return T{S: or(se.evalBool(x.L), se.evalBool(x.R)), So: "Bool"}
 	case "==>":
-		return T{S: "(=> " + se.evalBool(x.L) + " " + se.evalBool(x.R) + ")", So: "Bool"}
+		se.pol = -se.pol
+		l := se.evalBool(x.L)
+		se.pol = -se.pol
+		return T{S: "(=> " + l + " " + se.evalBool(x.R) + ")", So: "Bool"}
 	case "<==>":
-		return T{S: "(= " + se.evalBool(x.L) + " " + se.evalBool(x.R) + ")", So: "Bool"}
+		sp := se.pol
+		se.pol = 0
+		r := T{S: "(= " + se.evalBool(x.L) + " " + se.evalBool(x.R) + ")", So: "Bool"}
+		se.pol = sp
+		return r
+	}
+	sp := se.pol
+	if x.Op == "==" || x.Op == "!=" {
+		se.pol = 0
 	}
 	l := se.eval(x.L)
 	r := se.eval(x.R)
+	se.pol = sp
 	l, r = se.unifyNil(l, r)
 	switch x.Op {
 	case "==", "!=":
@@ -406,8 +483,16 @@ func (se *SpecEnv) evalQuant(x *EQuant) T {
 		}
 	}
 	se.bound = nb
+	mark := len(se.facts)
 	body := se.evalBool(x.Body)
 	se.bound = saved
+	lf := se.takeFacts(mark)
+	if lf != "true" {
+		switch {
+		case se.pol < 0:
+			body = "(and " + lf + " " + body + ")"
+		}
+	}
 	g := and(guards...)
 	if x.Forall {
 		if g != "true" {
@@ -466,10 +551,14 @@ func (se *SpecEnv) evalSel(x *ESel) T {
 		if i := fieldIndex(st, x.F); i >= 0 {
 			ft := st.Field(i).Type()
 			if isPtr {
-				return T{S: se.c.loadWith(se.memOf, fmt.Sprintf("(fld %s %d)", b.S, i), ft), So: se.c.reg.SortOf(ft), Ty: ft}
+				r := T{S: se.c.loadWith(se.memOf, fmt.Sprintf("(fld %s %d)", b.S, i), ft), So: se.c.reg.SortOf(ft), Ty: ft}
+				se.note(r.S, ft)
+				return r
 			}
 			si := se.c.reg.structInfoOf(sty)
-			return T{S: fmt.Sprintf("(%s_f%d %s)", si.name, i, b.S), So: se.c.reg.SortOf(ft), Ty: ft}
+			r := T{S: fmt.Sprintf("(%s_f%d %s)", si.name, i, b.S), So: se.c.reg.SortOf(ft), Ty: ft}
+			se.note(r.S, ft)
+			return r
 		}
 		// promoted fields through embedded structs
 		for i := 0; i < st.NumFields(); i++ {
@@ -579,10 +668,16 @@ func (se *SpecEnv) evalIndex(x *EIndex) T {
 		switch u := b.Ty.Underlying().(type) {
 		case *types.Slice:
 			addr := fmt.Sprintf("(elem (sarr %s) (+ (soff %s) %s))", b.S, b.S, i.S)
-			return T{S: se.c.loadWith(se.memOf, addr, u.Elem()), So: se.c.reg.SortOf(u.Elem()), Ty: u.Elem()}
+			r := T{S: se.c.loadWith(se.memOf, addr, u.Elem()), So: se.c.reg.SortOf(u.Elem()), Ty: u.Elem()}
+			if _, isStruct := u.Elem().Underlying().(*types.Struct); !isStruct {
+				se.note(r.S, u.Elem())
+			}
+			return r
 		case *types.Map:
 			_, vk, _, vs := se.c.mapKeys(u)
-			return T{S: "(select (select " + se.memOf(vk) + " " + b.S + ") " + i.S + ")", So: vs, Ty: u.Elem()}
+			r := T{S: "(select (select " + se.memOf(vk) + " " + b.S + ") " + i.S + ")", So: vs, Ty: u.Elem()}
+			se.note(r.S, u.Elem())
+			return r
 		case *types.Array:
 			return T{S: "(select " + b.S + " " + i.S + ")", So: se.c.reg.SortOf(u.Elem()), Ty: u.Elem()}
 		case *types.Basic:
@@ -907,8 +1002,10 @@ func (se *SpecEnv) callPred(p *Pred, argExprs []Expr) T {
 		}
 		nb[prm.Name] = a
 	}
-	sub := &SpecEnv{c: se.c, st: se.st, vars: nb, pkg: p.Pkg, old: se.old, snapOnly: se.snapOnly, inOld: se.inOld, fr: nil, bound: se.bound}
-	return T{S: sub.evalBool(p.Body), So: "Bool"}
+	sub := &SpecEnv{c: se.c, st: se.st, vars: nb, pkg: p.Pkg, old: se.old, snapOnly: se.snapOnly, inOld: se.inOld, fr: nil, bound: se.bound, nested: true, noFacts: se.noFacts, pol: se.pol}
+	r := T{S: sub.evalBool(p.Body), So: "Bool"}
+	se.facts = append(se.facts, sub.facts...)
+	return r
 }
 
 func (se *SpecEnv) callPure(pf *PureFunc, args []T) T {
@@ -926,8 +1023,9 @@ func (se *SpecEnv) callPure(pf *PureFunc, args []T) T {
 			}
 			nb[prm.Name] = a
 		}
-		sub := &SpecEnv{c: se.c, st: se.st, vars: nb, pkg: pf.Pkg, old: se.old, snapOnly: se.snapOnly, inOld: se.inOld, bound: se.bound}
+		sub := &SpecEnv{c: se.c, st: se.st, vars: nb, pkg: pf.Pkg, old: se.old, snapOnly: se.snapOnly, inOld: se.inOld, bound: se.bound, nested: true, noFacts: se.noFacts, pol: se.pol}
 		t := sub.eval(pf.Body)
+		se.facts = append(se.facts, sub.facts...)
 		t.Ty = rty
 		return t
 	}
@@ -961,4 +1059,95 @@ func implementsIface(sub, super *types.Interface) bool {
 		}
 	}
 	return super.NumMethods() > 0
+}
+
+// prove / assumeF evaluate a formula for use as a proof goal resp. as an assumption (the
+// well-typedness facts of loaded values are attached accordingly inside quantifiers).
+func (se *SpecEnv) prove(e Expr) string {
+	se.pol = 1
+	defer func() { se.pol = 0 }()
+	return se.evalBool(e)
+}
+func (se *SpecEnv) assumeF(e Expr) string {
+	se.pol = -1
+	defer func() { se.pol = 0 }()
+	return se.evalBool(e)
+}
+
+// ---------- conjunct splitting (finer blame, smaller queries) ----------
+
+func substExpr(e Expr, m map[string]Expr) Expr {
+	switch x := e.(type) {
+	case *EIdent:
+		if r, ok := m[x.Name]; ok {
+			return r
+		}
+		return x
+	case *ESel:
+		return &ESel{substExpr(x.X, m), x.F}
+	case *EIndex:
+		return &EIndex{substExpr(x.X, m), substExpr(x.I, m)}
+	case *ESlice:
+		r := &ESlice{X: substExpr(x.X, m)}
+		if x.Lo != nil {
+			r.Lo = substExpr(x.Lo, m)
+		}
+		if x.Hi != nil {
+			r.Hi = substExpr(x.Hi, m)
+		}
+		return r
+	case *ECall:
+		r := &ECall{Fn: x.Fn}
+		for _, a := range x.Args {
+			r.Args = append(r.Args, substExpr(a, m))
+		}
+		return r
+	case *EUnary:
+		return &EUnary{x.Op, substExpr(x.X, m)}
+	case *EBinary:
+		return &EBinary{x.Op, substExpr(x.L, m), substExpr(x.R, m)}
+	case *ECond:
+		return &ECond{substExpr(x.C, m), substExpr(x.A, m), substExpr(x.B, m)}
+	case *EQuant:
+		m2 := map[string]Expr{}
+		for k, v := range m {
+			m2[k] = v
+		}
+		for _, v := range x.Vars {
+			delete(m2, v.Name)
+		}
+		return &EQuant{x.Forall, x.Vars, substExpr(x.Body, m2)}
+	}
+	return e
+}
+
+// splitConjuncts flattens e into conjuncts: A && B, P ==> (A && B), and one level of predicate unfolding
+// (only for predicates declared in the same package scope as the expression, to keep name resolution valid).
+func (se *SpecEnv) splitConjuncts(e Expr, depth int) []Expr {
+	switch x := e.(type) {
+	case *EBinary:
+		if x.Op == "&&" {
+			return append(se.splitConjuncts(x.L, depth), se.splitConjuncts(x.R, depth)...)
+		}
+		if x.Op == "==>" {
+			var out []Expr
+			for _, c := range se.splitConjuncts(x.R, depth) {
+				out = append(out, &EBinary{"==>", x.L, c})
+			}
+			return out
+		}
+	case *ECall:
+		short := x.Fn
+		if i := strings.LastIndex(short, "."); i >= 0 {
+			short = short[i+1:]
+		}
+		if p, ok := se.c.eng.db.Preds[short]; ok && depth < 3 && p.Pkg == se.pkg && len(p.Params) == len(x.Args) {
+			m := map[string]Expr{}
+			for i, prm := range p.Params {
+				m[prm.Name] = x.Args[i]
+			}
+			return se.splitConjuncts(substExpr(p.Body, m), depth+1)
+		}
+	}
+	return []Expr{e}
 }
